@@ -34,6 +34,10 @@ func (f ActorFunc) Actions(w *World) []Action { return f(w) }
 type SchedFaults struct {
 	ShortReads     bool // a tick may see only part of the available messages
 	PermuteResults bool // carrier permutes ResultMsgs (always sorted canonically first)
+	// BoardDownAtSubmit: now and then the board is unreachable for exactly one
+	// submission of a result (the node's Send fails); the operator submits the
+	// file again later if the operation is still offered
+	BoardDownAtSubmit bool
 }
 
 // Loop is the step-atomic scheduler loop.
@@ -266,6 +270,10 @@ type Operator struct {
 	// (the file is still on the stick): resubmitted instead of re-processing
 	// when the node asks for the same operation again (e.g. after a crash)
 	results map[string][]byte
+	// AlterOp, when set, rewrites the operation file on its way from the node
+	// to the machine (C12: the timestamps a node with a stepping clock would
+	// have written).
+	AlterOp func(op *types.Operation, opJSON []byte) []byte
 	// PreAir / PreSubmit let a scenario present extra (malformed) inputs right
 	// before the genuine operation file / result is handed over.
 	PreAir    func(op *types.Operation, opJSON []byte)
@@ -337,6 +345,9 @@ func (o *Operator) Handle(w *World, op *types.Operation) *APIResult {
 		return get
 	}
 	opJSON := []byte(get.Result)
+	if o.AlterOp != nil {
+		opJSON = o.AlterOp(op, opJSON)
+	}
 	if o.PreAir != nil {
 		o.PreAir(op, opJSON)
 		if w.Failed() {
@@ -395,11 +406,15 @@ func (o *Operator) Handle(w *World, op *types.Operation) *APIResult {
 		}
 	}
 	var rep *APIResult
+	if o.L.Faults.BoardDownAtSubmit && w.Tape.Bool(1, 6, "boardDownAtSubmit?") {
+		n.Handle.SendErrOnce = true
+	}
 	if o.Submit != nil {
 		rep = o.Submit(op, body)
 	} else {
 		rep = w.CallAPI(n, "submit", "POST", "/handleProcessedOperationJSON", body)
 	}
+	n.Handle.SendErrOnce = false
 	if !rep.OK() {
 		w.Log.Add("operator[%d] submit rejected: %.120s", o.Idx, rep.ErrMsg)
 	}
